@@ -180,7 +180,11 @@ class Mock:
             return Var("good_lp::SolutionStatus::" + M.script.get("status", "Optimal"))
 
         def inner(I_, a):
-            return Var("clarabel::solver::DefaultSolution", fields={"status": Var("clarabel::solver::SolverStatus::" + M.script.get("clarabel_status", "Solved"))})
+            # clarabel's DefaultSolution: at a (dual) infeasibility status `x` holds a certificate (an improving ray), not a
+            # point of the model; z, s and the objective values are there too
+            xs = M.script.get("clarabel_x", M.script.get("values", []))
+            return Var("clarabel::solver::DefaultSolution", fields={"status": Var("clarabel::solver::SolverStatus::" + M.script.get("clarabel_status", "Solved")), "x": ListV(list(xs)), "z": ListV([]), "s": ListV([]),
+                                                                    "obj_val": M.script.get("objective", 0.0), "obj_val_dual": M.script.get("objective", 0.0), "iterations": 9, "r_prim": 0.0, "r_dual": 0.0})
 
         def compute_dual(I_, a):
             return Var("good_lp::solvers::clarabel::ClarabelDual")
@@ -227,6 +231,10 @@ def models():
     # rows far from unit scale: a shadow price is per unit of the row's own right-hand side, whatever the solver is given
     W = [("x", ("NonNegativeReal", 0.0, INF)), ("y", ("NonNegativeReal", 0.0, INF))]
     RW = [("big", [5000.0, 10000.0], "LessOrEqual", 20000.0), ("mix", [3.0, 1.0], "LessOrEqual", 6.0), ("demand", [2500.0, 2500.0], "GreaterOrEqual", 25000.0), ("tiny", [0.0005, -0.00025], "Equal", 0.001), ("", [1e6, 0.0], "LessOrEqual", 1e9)]
+    # row names are names: leading underscores, a `$`, a generated-looking suffix
+    RN = [("__cap", [1.0, 1.0], "LessOrEqual", 8.0), ("_lo", [1.0, -1.0], "GreaterOrEqual", -2.0), ("$r", [2.0, 1.0], "LessOrEqual", 12.0), ("cap__2", [0.0, 1.0], "LessOrEqual", 5.0), ("__", [1.0, 0.0], "Equal", 3.0)]
+    m("unusual row names, maximised", W, RN, [3.0, 2.0], "Max")
+    m("unusual row names, minimised", W, RN, [-1.0, 2.0], "Min")
     m("large and small rows, maximised", W, RW, [3.0, 2.0], "Max")
     m("large and small rows, minimised", W, RW, [2.0, 3.0], "Min", 1.0)
     return out
@@ -352,6 +360,9 @@ def check(F, R, tier="quick", props=("C20", "C04", "C05")):
             lm = c04rt.build_model(I, md)
             sc = {"values": c04rt.scripted_values(md), "duals": [0.5] * len(md["rows"]), "status": "Optimal"}
             sc.update(script)
+            if "clarabel_status" in script:
+                # the certificate: a direction, normalised, that is no point of the model (it violates rows and ranges)
+                sc["clarabel_x"] = [(-1.0) ** i_ * 1e3 for i_ in range(len(md["vars"]))]
             mock.reset(sc)
             r = I.call_fn(CLARABEL, [lm])
             n_runs += 1
